@@ -276,7 +276,8 @@ def run(R):
               'key-set shapes (single, bit pairs, extremes, dense blocks, combs up to 400 nested forks, clusters, random up to 2000 keys); each map '
               'through 5 parse routes + an independent Hashmap decoder; unfit keys (>= 2^w, negative, long bytes/bit strings) must be refused and leave '
               'the map unchanged; distinct = distinct (width, key set, value kind, order); non-trivial = at least 2 keys')
-    R.assumptions = ['fork nesting bounded at 400 (the recursive builder/parser meet Python\'s recursion limit beyond ~480; outside the explored bound)',
+    R.assumptions = ['the general workload keeps fork nesting <= 400; deeper maps (450, 600, 1000 nested forks) are driven separately under the default recursion limit - the library\'s '
+                     'RecursionError beyond ~490 nested forks is a recorded known finding',
                      'width 0 dictionaries are not generated', 'R4 decoder (lib/dictref.py) is the independent reading of hashmap.tlb']
     M = DictMonitor(R)
     vks = value_kinds()
@@ -286,12 +287,49 @@ def run(R):
     finally:
         inv.uninstall()
         M.close()
+    if R.shard == 0:
+        deep_combs(R)
     R.floor('maps_checked', 300 if quick else 3000)
     R.floor('unfit_keys_tried', 100)
     R.floor('post_set_int_key', 1000)
     R.floor('empty_maps', 3)
     R.floor('history_steps', 100)
     R.floor('history_transitions', 12, 'set')
+
+
+def deep_combs(R):
+    """maps whose Patricia tree nests more forks than the explored bound of the other cases: the comb 2^1-1, 2^2-1, ... of width 1023 nests one fork per key; the
+    tree is valid up to 1023 nested forks (cell depth).  Run under Python's default recursion limit, which is what a user has."""
+    import sys
+    from pytoniq_core.boc.hashmap.hashmap import HashMap
+    from pytoniq_core.boc.hashmap.parse import parse_hashmap
+    w = 1023
+    for depth in (450, 600, 1000):
+        keys = [(1 << i) - 1 for i in range(1, depth + 1)]
+        old = sys.getrecursionlimit()
+        sys.setrecursionlimit(1000)
+        try:
+            hm = HashMap(w).with_uint_values(8)
+            for k in keys:
+                hm.set_int_key(k, k % 251)
+            st, cell = mon.call(hm.serialize)
+            W = {'width': w, 'nested_forks': depth, 'keys': 'comb 2^i - 1, i = 1..%d' % depth, 'recursion_limit': 1000}
+            R.counters['oracle_evaluations'] += 1
+            R.count('deep_comb_cases')
+            if st == 'exc':
+                R.exc(cell)
+                R.violation('recursion-limit-nested-forks-serialize' if isinstance(cell, RecursionError) else f'deep-comb-serialize-raises-{type(cell).__name__}',
+                            f'HashMap.serialize raised {type(cell).__name__} for a valid map whose tree nests {depth} forks', W)
+                continue
+            st, got = mon.call(lambda: {int(k, 2): v.load_uint(8) for k, v in parse_hashmap(cell.begin_parse(), w).items()})
+            if st == 'exc':
+                R.exc(got)
+                R.violation('recursion-limit-nested-forks-parse' if isinstance(got, RecursionError) else f'deep-comb-parse-raises-{type(got).__name__}',
+                            f'parse_hashmap raised {type(got).__name__} on the library\'s own cell of a map whose tree nests {depth} forks', W)
+                continue
+            R.check(got == {k: k % 251 for k in keys} and list(got) == sorted(got), 'deep-comb-roundtrip', f'a map nesting {depth} forks does not round-trip', W)
+        finally:
+            sys.setrecursionlimit(old)
 
 
 def _case(R, M, w, keys, vk, rng, keyform='int', how='with', nrandom=1, full_routes=True, shape=''):
